@@ -2,6 +2,7 @@ import I18n.Lemmas.PerlBraceRe
 import I18n.Lemmas.PyBraceOwn
 import I18n.Lemmas.PyBraceFormat
 import I18n.Lemmas.PyBraceQuirk
+import I18n.Lemmas.PyBraceSpecRe
 import I18n.Lemmas.PyBraceTables
 /-!
 # C13 — the brace-format parsers agree with the languages they model
@@ -122,6 +123,14 @@ theorem brace_reject {s : List Char} (h : ¬ parseOK s) : ∃ c a, PyBrace.parse
   | error e =>
     obtain ⟨c, a, rfl⟩ := brace_error_own hp
     exact ⟨c, a, rfl⟩
+
+/-- the model's reading of a format specification IS the first match of the live parse tree of `_format_spec_re` under the
+    backtracking semantics: `T2` is the chain of the stage functions of `scanSpec` (fill/align, sign, `#`, `0`, width, `,`,
+    precision, type, end) with positions and group captures, and `_format_spec_re.match(spec)` succeeds iff `scanSpec` does -/
+theorem spec_regex (cs : List Char) :
+    matchAt liveDB PyBraceTables.formatSpecRe cs 0 = PyBrace.T2 ⟨cs, 0, []⟩ ∧
+    (matchAt liveDB PyBraceTables.formatSpecRe cs 0).isSome = (PyBrace.scanSpec cs).isSome :=
+  ⟨PyBrace.matchAt_formatSpecRe cs, PyBrace.formatSpecRe_accepts cs⟩
 
 /-- **For strings without nested or compound fields `str.format` succeeds when given arguments with the reported
     positions, names and types** — proved for the strings none of whose fields has one of the two typing gaps
